@@ -1029,3 +1029,52 @@ def scalar_const(module, cls: Optional[ast.ClassDef], e: ast.AST):
             if isinstance(v, (int, float, str, bytes)) and not isinstance(v, bool):
                 return v
     raise KeyError(q.unparse(e))
+
+
+def concat_to_join(e: ast.AST) -> ast.AST:
+    """``a + SEP + b + SEP + c`` (and the empty-separator-join spelling of the same) -> ``SEP.join([a, b, c])``
+    when the constant pieces between the computed ones are one and the same non-empty separator; a leading
+    constant ``HEAD + SEP`` becomes the first element(s).  Anything else is returned unchanged."""
+    e2 = concat_canon(e)
+    pieces: List[ast.AST] = []
+
+    def flat(x):
+        if isinstance(x, ast.BinOp) and isinstance(x.op, ast.Add):
+            flat(x.left)
+            flat(x.right)
+        else:
+            pieces.append(x)
+
+    flat(e2)
+    is_c = lambda x: isinstance(x, ast.Constant) and isinstance(x.value, (bytes, str))
+    if len(pieces) < 3 or not any(is_c(x) for x in pieces) or is_c(pieces[-1]):
+        return e
+    head: List[ast.AST] = []
+    rest = pieces
+    lit0 = None
+    if is_c(pieces[0]):
+        lit0, rest = pieces[0].value, pieces[1:]
+    # rest must be arg, SEP, arg, SEP, ..., arg
+    if len(rest) % 2 == 0:
+        return e
+    args = rest[0::2]
+    seps = rest[1::2]
+    if any(is_c(a) for a in args) or not all(is_c(s_) for s_ in seps):
+        return e
+    sepvals = {s_.value for s_ in seps}
+    if lit0 is not None and not seps:
+        # HEAD+SEP followed by a single computed piece: the separator is unknown
+        return e
+    if len(sepvals) != 1:
+        return e
+    sep = sepvals.pop()
+    if not sep:
+        return e
+    if lit0 is not None:
+        if not lit0.endswith(sep):
+            return e
+        head = [ast.Constant(value=h) for h in lit0[: -len(sep)].split(sep)]
+    new = ast.Call(func=ast.Attribute(value=ast.Constant(value=sep), attr="join", ctx=ast.Load()), args=[ast.List(elts=head + list(args), ctx=ast.Load())], keywords=[])
+    ast.copy_location(new, e)
+    ast.fix_missing_locations(new)
+    return new
